@@ -103,14 +103,14 @@ def gen(rng, tier):
         so, ko = rng.randrange(2), rng.randrange(2)
         ln = rng.choice([0, 1, 2, 5, 9, 17, 40])
         st = [rng.randrange(256) for _ in range(ln)]
-        op = rng.choice(['cbc', 'ncbc', 'draincbc', 'stsn', 'stsdrain', 'someaux', 'atmostaux', 'naux', 'drainaux', 'get', 'put'])
+        op = rng.choice(['cbc', 'ncbc', 'draincbc', 'stsn', 'stsdrain', 'someaux', 'atmostaux', 'naux', 'drainaux', 'get', 'put', 'atmost', 'some', 'octets'])
         if op == 'get':
             yield 'ep.get %d %s %s %d' % (so, hexs(st), lst(rscript(EV)), rng.randrange(1, ln + 3)); continue
         if op == 'put':
             yield 'ep.put %d %s %s %d' % (ko, hexs(st or [1]), lst(rscript(EV)), len(st or [1])); continue
-        if op in ('cbc', 'ncbc', 'draincbc', 'stsn', 'stsdrain'):
+        if op in ('cbc', 'ncbc', 'draincbc', 'stsn', 'stsdrain', 'atmost', 'some', 'octets'):
             ss, ks = rscript(EV, 6), rscript(EV, 6)
-            if op == 'cbc' or op.endswith('drain') or op == 'draincbc':
+            if op in ('cbc', 'some') or op.endswith('drain') or op == 'draincbc':
                 yield 'ep.%s %d %s %s %d %s' % (op, so, hexs(st), lst(ss), ko, lst(ks))
             else:
                 yield 'ep.%s %d %s %s %d %s %d' % (op, so, hexs(st), lst(ss), ko, lst(ks), rng.randrange(0, ln + 3))
